@@ -7,6 +7,19 @@ from statham.schema.elements.composition import AllOf
 from statham.schema.property import _Property as Property
 
 
+class _DeclaredAllOf(AllOf):
+    """A declared property whose name also matches `patternProperties`.
+
+    The value must match every schema. The result is built by the declared
+    element (the first), which is the one the property's annotation
+    describes - whichever of the schemas is the most explicitly typed.
+    """
+
+    def construct(self, value: Any, property_: Property):
+        super().construct(value, property_)
+        return self.elements[0](value, property_)
+
+
 class Properties:
     """Interface for retrieving relevant schemas given a property name.
 
@@ -53,7 +66,7 @@ class Properties:
         if not pattern_elems:
             return prop
         composite = Property(
-            AllOf(
+            _DeclaredAllOf(
                 prop.element,
                 *pattern_elems,
                 # Keep the declared default when the value is omitted.
